@@ -513,7 +513,7 @@ def run_query(q, wd, bcdir, tier, seed, known):
 
 
 def build_prelude(bcdir):
-    for f in ("cxxrt", "cxxrt_string", "cxxrt_rbtree", "cxxrt_nostring"):
+    for f in ("cxxrt", "cxxrt_string", "cxxrt_rbtree", "cxxrt_nostring", "cxxrt_hash"):
         rc, o, e, to, dt, _ = sh(["clang++-14", "-std=gnu++20", "-O1", "-fno-exceptions", "-flto", "-fvisibility=hidden", "-w", "-c", "-emit-llvm",
                                   os.path.join(VERIF, "tools", f + ".cpp"), "-o", os.path.join(bcdir, f + ".bc")])
         if rc != 0:
